@@ -792,10 +792,10 @@ def _gc_model_case(txt, r, cache=False):
             exp.append("ABool %s" % ("true" if t["found"] else "false"))
     return "  ([%s],\n   [%s],\n   [%s]%%nat,\n   [%s])" % ("; ".join(setup), "; ".join(calls), "; ".join("(%d, %s)" % x for x in sched), "; ".join(exp))
 
-def _conc_scenarios(rng, n, gc):
+def _conc_scenarios(rng, n, gc, fam_range=None):
     scen = []
     for _ in range(n):
-        fam = rng.random()
+        fam = rng.random() if fam_range is None else rng.uniform(*fam_range)      # fam_range: only the families in that band
         if not gc and fam < 0.35:
             scen.append(_model_scenario(rng))
             continue
@@ -1490,7 +1490,8 @@ def _c07_conc(ctx):
         scen, n = [open(ctx["replay"]).read()], 0
     elif ctx.get("replay"):
         return [], {}
-    scen += _conc_scenarios(rng, n, True)
+    # half of them from the flush-versus-index-GC family: the files are at stake when a cycle meets a Flush that rolls over to a new index file
+    scen += _conc_scenarios(rng, n // 2, True) + _conc_scenarios(rng, n - n // 2, True, fam_range=(0.4, 0.6))
     res = run_conc(scen, wd, "c07conc")
     viol, judged, with_gc = [], 0, 0
     for txt, r, raw in res:
